@@ -163,9 +163,11 @@ Callback ==
 Return ==
   /\ Rec.e = "ret"
   /\ ret' = Rec
+  \* (Rec.soft: source streams that carried bytes beyond the described size - the call may fail or not, depending on
+  \* whether the destination reads that far; what it leaves behind is judged at `final` either way)
   /\ V({<<"FaultSurfaces", Rec.fired > 0 => Rec.err>>,
-        <<"NoSpuriousError", (Rec.fired = 0 /\ ~Rec.cancelled) => ~Rec.err>>,
-        <<"CallbackErrorReturned", cbFail /\ Rec.fired = 1 => Rec.cberr>>,
+        <<"NoSpuriousError", (Rec.fired = 0 /\ Rec.soft = 0 /\ ~Rec.cancelled) => ~Rec.err>>,
+        <<"CallbackErrorReturned", cbFail /\ Rec.fired = 1 /\ Rec.soft = 0 => Rec.cberr>>,
         <<"Quiescent", srcIn = 0 /\ dstIn = 0>>,
         <<"TransferredNotified", ~Rec.err => \A n \in pushed : cbs[n] \in {<<"pre", "post">>, <<"mounted">>} >>,
         <<"ReturnedRoot", ~Rec.err /\ IsTagging => Rec.root = (IF IsExt THEN g.root ELSE ExpectedRoot)>>})
@@ -174,6 +176,14 @@ Return ==
 Hang ==
   /\ Rec.e = "hang"
   /\ V({<<"NoHang", FALSE>>})
+  /\ UNCHANGED <<g, dst, srcIn, dstIn, nPush, nFetch, cbs, pushed, cbFail, ret, phase>>
+
+\* the process died in the middle of this call because a goroutine of the library panicked; the event is appended by
+\* the check after it reproduced the crash on a replay of the scenario.  The limiter's own complaint that a permit was
+\* released that was not held is C04's accounting (permits = running tasks) broken; any other panic is not judged here.
+Panic ==
+  /\ Rec.e = "panic"
+  /\ V({<<"PermitReleasedOnlyIfHeld", Rec.what # "semaphore: released more than held">>})
   /\ UNCHANGED <<g, dst, srcIn, dstIn, nPush, nFetch, cbs, pushed, cbFail, ret, phase>>
 
 RetryBegin ==
@@ -222,7 +232,7 @@ Step ==
   /\ l' = l + 1
   /\ done' = FALSE
   /\ \/ EvInit \/ SrcBegin \/ SrcEnd \/ DstBegin \/ ExistsEnd \/ PushEnd \/ Callback
-     \/ Return \/ Hang \/ RetryBegin \/ RetryEnd \/ Final \/ Other
+     \/ Return \/ Hang \/ Panic \/ RetryBegin \/ RetryEnd \/ Final \/ Other
 
 Finish ==
   /\ l = Len(Trace) + 1 /\ ~done
